@@ -9,6 +9,7 @@ package main
 
 import (
 	"context"
+	"fmt"
 	"os"
 
 	remoteexecution "github.com/bazelbuild/remote-apis/build/bazel/remote/execution/v2"
@@ -173,8 +174,9 @@ func (r scriptedRunnerClient) CheckReadiness(ctx context.Context, in *runner_pb.
 func (h *dharness) runExecutor(inner builder.BuildDirectoryCreator, o dop, slot int, ready bool) {
 	digTerm, hash := "None", ""
 	if o.Dig > 0 && !ready {
-		hash = hashes[(o.Dig-1)%len(hashes)]
-		digTerm = g.Some(g.Str(hash))
+		hi := (o.Dig - 1) % len(hashes)
+		hash = hashes[hi]
+		digTerm = g.Some(fmt.Sprintf("hash%d", hi))
 	}
 	gf, cf := o.Fl, []bool(nil)
 	if len(gf) > 5 {
